@@ -88,7 +88,10 @@ def run(ctx):
         bad = None
         for m in METHODS:
             snap = pf.copy()
-            r = guarded(npc.adjust_p, pf, m)
+            arg = pf
+            if m != "bonferroni" and ctx.rng.random() < 0.2:       # plain Python sequences are accepted for Holm and BH (array_like)
+                arg = pf.tolist() if ctx.rng.random() < 0.6 else tuple(pf.tolist()); ctx.count("python-sequence-input")
+            r = guarded(npc.adjust_p, arg, m)
             ctx.case((tuple(exact), m), tie or unsorted, {"pvalues": [str(x) for x in v], "method": m})
             ctx.count(f"n={len(v)}"); ctx.count("ties" if tie else "no-ties")
             if not np.array_equal(snap, pf):
